@@ -38,11 +38,11 @@ failed = sum(int(x.split(" failed")[0].split()[-1]) for x in out.splitlines() if
 meta["tests_with_change"] = {"passed": passed, "failed": failed}
 rc1, out1 = sh("bash demo.sh", cwd=wt)
 meta["demo_with_change"] = {"exit": rc1, "tail": out1[-300:]}
-sh("git stash", cwd=wt)
+sh("git diff -- core/src cli/src > %s/target/.seed.patch && git checkout -- core/src cli/src" % wt, cwd=wt)   # not `git stash`: the stash is shared by all worktrees
 sh("cargo build --offline -p sfs-cli 2>&1 | tail -1", cwd=wt)
 rc0, out0 = sh("bash demo.sh", cwd=wt)
 meta["demo_without_change"] = {"exit": rc0, "tail": out0[-300:]}
-sh("git stash pop", cwd=wt)
+sh("git apply %s/target/.seed.patch" % wt, cwd=wt)
 meta["confirmed"] = (failed == 0 and passed >= 89 and rc1 != 0 and rc0 == 0)
 # run the checks against /repo with the patch applied
 rc, out = sh("git -C /repo apply %s" % os.path.join(d, "patch.diff"))
